@@ -116,6 +116,18 @@ def handle (cmd : String) (args : List String) : Option String :=
   | "store.run0" => match args with
     | [] => some "-"
     | _ => run .original args
+  | "store.cut" =>
+    -- ReplaceVoucher of the stored voucher [1] by a voucher with GUID [2], the request's context ending at the given point
+    let cut? : Option Cut := match args with
+      | ["none"] => some .none
+      | ["insert"] => some .beforeInsert
+      | ["delete"] => some .afterInsert
+      | _ => none
+    cut?.map fun c =>
+      let s : Store := { Store.empty with vouchers := upd Store.empty.vouchers [1] (some [7]) }
+      let r := replaceVoucherCut s [1] [2] false [8] c
+      let res := if r.2 = .ok then "ok" else "fail"
+      s!"ReplaceVoucher={res} old-present={(r.1.vouchers [1]).isSome} replacement-present={(r.1.vouchers [2]).isSome}"
   | _ => none
 
 end Fdo.Drv.Store
